@@ -41,6 +41,44 @@ def cu_at(I, cu, B, off):
                   *[to_int(h[k]) == _F[k](arr, o) for k in ('unit_length', 'version', 'debug_abbrev_offset', 'address_size')])
 
 
+# version 4 type units (.debug_types): the leaves of the K1 layout of Dwarf_TU_header
+_T = {n: z3.Function('Dwarf_TU_header.' + n, ArrS, IntS, IntS)
+      for n in ('unit_length', 'version', 'debug_abbrev_offset', 'address_size', 'signature', 'type_offset')}
+_T['die_offset'] = z3.Function('end!Dwarf_TU_header', ArrS, IntS, IntS)
+_T['format'] = _F['format']
+
+
+@_native
+def tu_at(I, tu, B, off):
+    """tu is the type unit whose header starts at off in .debug_types: every observable field is the function of
+    (section bytes, offset) that a fresh parse computes"""
+    arr, o = B.arr, to_int(off)
+    h = tu.attrs['header'].fields
+    return z3.And(to_int(tu.attrs['tu_offset']) == o,
+                  to_int(tu.attrs['tu_die_offset']) == _T['die_offset'](arr, o),
+                  to_int(tu.attrs['structs'].attrs['dwarf_format']) == _T['format'](arr, o),
+                  to_int(tu.attrs['structs'].attrs['dwarf_version']) == _T['version'](arr, o),
+                  to_int(tu.attrs['structs'].attrs['address_size']) == _T['address_size'](arr, o),
+                  *[to_int(h[k]) == _T[k](arr, o) for k in ('unit_length', 'version', 'debug_abbrev_offset', 'address_size',
+                                                           'signature', 'type_offset')])
+
+
+_tuoff = z3.Function('tunit_off', ArrS, IntS, IntS, IntS)
+
+
+@_native
+def tunit_off(I, B, start, k):
+    """offset of the k-th type unit from `start` in .debug_types: next = this + unit_length + initial length size"""
+    return _tuoff(B.arr, to_int(start), to_int(k))
+
+
+def _unfold_tuoff(t):
+    arr, s0, k = t.arg(0), t.arg(1), t.arg(2)
+    prev = _tuoff(arr, s0, k - 1)
+    return [_tuoff(arr, s0, 0) == s0,
+            z3.Implies(k >= 1, t == prev + _T['unit_length'](arr, prev) + z3.If(_T['format'](arr, prev) == 32, 4, 12))]
+
+
 _uoff = z3.Function('unit_off', ArrS, IntS, IntS, IntS)
 
 
@@ -59,6 +97,7 @@ def _unfold_uoff(t):
 
 from pyvc.verify import register_recdef
 register_recdef('unit_off', _unfold_uoff)
+register_recdef('tunit_off', _unfold_tuoff)
 
 
 @_native
